@@ -698,3 +698,11 @@ LEVEL_NOTE = ('Trusted: Lean kernel + standard axioms; the reports fed to the bo
               'harness from the operations (their production is C09\'s model); published composite = hierarchy and '
               'rebuild-continues-identically are checked by the oracle on the implementation, not proved.')
 TECHNIQUE = 'Lean 4 refinement proof (bookkeeping ⊑ hierarchy) by induction over histories + replay correspondence'
+
+
+# compartments with flow steps created through every route (constructor entries, `_generate` with a key, `_divide`
+# with inherited processes/steps/flow): the steps must exist, run at their place in the flow, and the published
+# composite must describe them (F34)
+from harness import dynflow as _df                      # noqa: E402
+from harness.mixins import add_family as _add_family    # noqa: E402
+_add_family(globals(), _df, 'dynflow', _df.oracle, share=0.15)
